@@ -5,6 +5,7 @@
 //!        2 infrastructure / generator-health trouble (never reported as a violation)
 
 mod ast;
+mod astops;
 mod engine;
 mod findings;
 mod gen;
